@@ -220,6 +220,20 @@ func evalP7env(args []string) string {
 			return "ORACLE-FAIL:recovered-content-differs"
 		}
 	}
+	// the same envelope with its encrypted content in 2 and in 3 OCTET STRING segments (BER streaming form)
+	for _, parts := range []int{2, 3} {
+		ch, ok := chunkedEnvelope(der, parts)
+		if !ok {
+			return "ORACLE-FAIL:cannot-rechunk"
+		}
+		got, err := open(ch, 0)
+		if err != nil {
+			return "ORACLE-FAIL:chunked-content-not-recovered"
+		}
+		if !bytes.Equal(got, content) {
+			return "ORACLE-FAIL:chunked-content-differs"
+		}
+	}
 	// a party that is not a recipient, and a recipient's certificate with another party's key
 	if _, err := open(der, n); err == nil {
 		return "ORACLE-FAIL:non-recipient-decrypts"
@@ -696,4 +710,109 @@ func genC17(r *rng, tier string, emit func(string)) {
 		}
 		emit(fmt.Sprintf("p12 %s %s %d", hx([]byte(p)), hx([]byte(w)), r.intn(4)))
 	}
+}
+
+// ---- a small definite-length TLV tree, to re-encode an envelope in the BER "streaming" form -----------------
+
+type tlvNode struct {
+	tag      byte
+	content  []byte
+	children []*tlvNode // constructed encodings only
+}
+
+func tlvParse(b []byte) ([]*tlvNode, bool) {
+	var out []*tlvNode
+	for len(b) > 0 {
+		if len(b) < 2 {
+			return nil, false
+		}
+		tag := b[0]
+		l := int(b[1])
+		off := 2
+		if l >= 0x80 {
+			n := l & 0x7f
+			if n == 0 || n > 3 || len(b) < 2+n {
+				return nil, false
+			}
+			l = 0
+			for i := 0; i < n; i++ {
+				l = l<<8 | int(b[2+i])
+			}
+			off = 2 + n
+		}
+		if off+l > len(b) {
+			return nil, false
+		}
+		nd := &tlvNode{tag: tag, content: b[off : off+l]}
+		if tag&0x20 != 0 {
+			ch, ok := tlvParse(nd.content)
+			if !ok {
+				return nil, false
+			}
+			nd.children = ch
+		}
+		out = append(out, nd)
+		b = b[off+l:]
+	}
+	return out, true
+}
+
+func tlvEncode(n *tlvNode) []byte {
+	body := n.content
+	if n.tag&0x20 != 0 {
+		body = nil
+		for _, c := range n.children {
+			body = append(body, tlvEncode(c)...)
+		}
+	}
+	out := []byte{n.tag}
+	switch {
+	case len(body) < 128:
+		out = append(out, byte(len(body)))
+	case len(body) < 256:
+		out = append(out, 0x81, byte(len(body)))
+	case len(body) < 65536:
+		out = append(out, 0x82, byte(len(body)>>8), byte(len(body)))
+	default:
+		out = append(out, 0x83, byte(len(body)>>16), byte(len(body)>>8), byte(len(body)))
+	}
+	return append(out, body...)
+}
+
+// chunkedEnvelope re-encodes the encryptedContent [0] IMPLICIT OCTET STRING of an EnvelopedData as a constructed
+// [0] holding the given number of OCTET STRING segments (what a streaming CMS writer produces)
+func chunkedEnvelope(der []byte, parts int) ([]byte, bool) {
+	top, ok := tlvParse(der)
+	if !ok || len(top) != 1 {
+		return nil, false
+	}
+	var target *tlvNode
+	var walk func(n *tlvNode)
+	walk = func(n *tlvNode) {
+		for _, c := range n.children {
+			// encryptedContentInfo ::= SEQUENCE { contentType OID, algorithm, [0] encryptedContent }
+			if (c.tag == 0x80 || c.tag == 0xa0) && n.tag == 0x30 && target == nil && len(n.children) == 3 && n.children[0].tag == 0x06 {
+				target = c
+			}
+			walk(c)
+		}
+	}
+	walk(top[0])
+	if target == nil {
+		return nil, false
+	}
+	ct := target.content
+	if target.tag == 0xa0 { // the library writes a constructed [0] holding one OCTET STRING
+		if len(target.children) != 1 || target.children[0].tag != 0x04 {
+			return nil, false
+		}
+		ct = target.children[0].content
+	}
+	target.tag = 0xa0
+	target.children = nil
+	for i := 0; i < parts; i++ {
+		lo, hi := len(ct)*i/parts, len(ct)*(i+1)/parts
+		target.children = append(target.children, &tlvNode{tag: 0x04, content: ct[lo:hi]})
+	}
+	return tlvEncode(top[0]), true
 }
